@@ -2,6 +2,7 @@ package gen
 
 import (
 	"fmt"
+	"math"
 
 	"pgregory.net/rapid"
 
@@ -132,6 +133,37 @@ type ValueOpts struct {
 	Style    Style
 	NullProb int // percent chance an optional node is null (0..100)
 	MaxList  int // max elements of repeated/list/map (default 4)
+	// LongLists > 0 lets roughly one list in LongLists be extended (compact form
+	// V.X) to a length around the 512-value dictionary chunk and the 1024-value
+	// copy batch.
+	LongLists int
+	longLeft  *int // extensions still allowed in the current row (at most one, never nested)
+}
+
+func hasX(v ref.V) bool {
+	if v.X > 0 {
+		return true
+	}
+	for i := range v.L {
+		if hasX(v.L[i]) {
+			return true
+		}
+	}
+	for i := range v.F {
+		if hasX(v.F[i]) {
+			return true
+		}
+	}
+	return false
+}
+
+var longLens = []int{511, 512, 513, 600, 1023, 1024, 1025, 1100, 2100}
+
+func extend(t *rapid.T, v *ref.V, o ValueOpts) {
+	if o.LongLists > 0 && o.longLeft != nil && *o.longLeft > 0 && len(v.L) > 0 && !hasX(*v) && rapid.IntRange(0, o.LongLists-1).Draw(t, "long?") == 0 {
+		v.X = longLens[rapid.IntRange(0, len(longLens)-1).Draw(t, "longlen")]
+		*o.longLeft--
+	}
 }
 
 // Value draws a value tree for the node (handling its repetition).
@@ -148,6 +180,7 @@ func Value(t *rapid.T, n *ref.Node, o ValueOpts) ref.V {
 		for i := 0; i < k; i++ {
 			v.L = append(v.L, content(t, n, o))
 		}
+		extend(t, &v, o)
 		return v
 	}
 	return content(t, n, o)
@@ -187,6 +220,7 @@ func content(t *rapid.T, n *ref.Node, o ValueOpts) ref.V {
 		for i := 0; i < k; i++ {
 			v.L = append(v.L, Value(t, &n.Children[0], o))
 		}
+		extend(t, &v, o)
 		return v
 	case "map":
 		k := listLen(t, o)
@@ -209,15 +243,20 @@ var RunLens = []int{1, 1, 2, 3, 7, 8, 9, 31, 32, 33, 62, 63, 64, 65, 66, 127, 12
 // distinct rows and a run-length sequence of pool indexes.
 type RowPlan struct {
 	Pool []ref.V  `json:"pool"`
-	Runs [][2]int `json:"runs"` // (pool index, repeat count)
+	Runs [][2]int `json:"runs"`           // (pool index, repeat count)
+	Uniq bool     `json:"uniq,omitempty"` // see ExpandWith
 }
 
 // Expand materialises the rows.
 func (p RowPlan) Expand() []ref.V {
 	var out []ref.V
+	pool := make([]ref.V, len(p.Pool))
+	for i := range p.Pool {
+		pool[i] = ref.Materialize(p.Pool[i])
+	}
 	for _, r := range p.Runs {
 		for k := 0; k < r[1]; k++ {
-			out = append(out, p.Pool[r[0]])
+			out = append(out, pool[r[0]])
 		}
 	}
 	return out
@@ -252,6 +291,8 @@ func Rows(t *rapid.T, root *ref.Node, maxPool, maxRows int, o ValueOpts) RowPlan
 			oo.NullProb = 30
 		}
 		row := ref.V{}
+		left := 1
+		oo.longLeft = &left
 		for c := range root.Children {
 			row.F = append(row.F, Value(t, &root.Children[c], oo))
 		}
@@ -293,4 +334,101 @@ func RowsAtLeast(t *rapid.T, root *ref.Node, maxPool, min, maxRows int, o ValueO
 		p.Runs = append(p.Runs, [2]int{idx, n})
 	}
 	return p
+}
+
+// ExpandWith materialises the rows; when the plan is marked Uniq every row is
+// made distinct by folding its index into the leaf values (many distinct
+// values per column: dictionary growth and fallback, bloom filter load, ...).
+func (p RowPlan) ExpandWith(root *ref.Node) []ref.V {
+	rows := p.Expand()
+	if !p.Uniq {
+		return rows
+	}
+	for i := range rows {
+		row := ref.V{F: make([]ref.V, len(rows[i].F))}
+		for c := range root.Children {
+			if c < len(rows[i].F) {
+				row.F[c] = uniqNode(&root.Children[c], rows[i].F[c], i)
+			}
+		}
+		rows[i] = row
+	}
+	return rows
+}
+
+func uniqNode(n *ref.Node, v ref.V, i int) ref.V {
+	if v.Null {
+		return v
+	}
+	if n.Rep == "rep" {
+		out := ref.V{L: make([]ref.V, len(v.L))}
+		for k := range v.L {
+			out.L[k] = uniqContent(n, v.L[k], i*4099+k)
+		}
+		return out
+	}
+	return uniqContent(n, v, i)
+}
+
+func uniqContent(n *ref.Node, v ref.V, i int) ref.V {
+	switch n.Kind {
+	case "leaf":
+		return uniqLeaf(ref.ParseLeaf(n.Leaf), v, i)
+	case "group":
+		out := ref.V{F: make([]ref.V, len(v.F))}
+		for k := range v.F {
+			if k < len(n.Children) {
+				out.F[k] = uniqNode(&n.Children[k], v.F[k], i)
+			}
+		}
+		return out
+	case "list":
+		out := ref.V{L: make([]ref.V, len(v.L))}
+		for k := range v.L {
+			out.L[k] = uniqNode(&n.Children[0], v.L[k], i*4099+k)
+		}
+		return out
+	case "map":
+		out := ref.V{L: make([]ref.V, len(v.L))}
+		for k := range v.L {
+			e := v.L[k]
+			if len(e.F) == 2 {
+				out.L[k] = ref.V{F: []ref.V{uniqNode(&n.Children[0], e.F[0], i), uniqNode(&n.Children[1], e.F[1], i)}}
+			} else {
+				out.L[k] = e
+			}
+		}
+		return out
+	}
+	return v
+}
+
+func uniqLeaf(l ref.Leaf, v ref.V, i int) ref.V {
+	id := l.ID
+	switch {
+	case l.Phys == ref.Int32 && (id == "int32" || id == "uint32" || id == "date"):
+		return ref.V{I: int64(int32(v.I + int64(i)))}
+	case l.Phys == ref.Int64 && (id == "int64" || id == "uint64" || len(id) > 2 && id[:2] == "ts"):
+		return ref.V{I: v.I + int64(i)}
+	case l.Phys == ref.Float:
+		f := math.Float32frombits(uint32(v.I))
+		if f == f && !math.IsInf(float64(f), 0) && f > -1e6 && f < 1e6 {
+			return ref.V{I: int64(int32(math.Float32bits(f + float32(i))))}
+		}
+	case l.Phys == ref.Double:
+		f := math.Float64frombits(uint64(v.I))
+		if f == f && !math.IsInf(f, 0) && f > -1e12 && f < 1e12 {
+			return ref.V{I: int64(math.Float64bits(f + float64(i)))}
+		}
+	case l.Phys == ref.ByteArr && l.Order == ref.OrderBytes:
+		return ref.V{B: append(append([]byte{}, v.B...), []byte(fmt.Sprintf("#%d", i))...)}
+	case (l.Phys == ref.FLBA && l.Order == ref.OrderBytes && l.Len >= 2) || l.Phys == ref.Int96:
+		b := append([]byte{}, v.B...)
+		if len(b) >= 2 {
+			b[len(b)-1] ^= byte(i)
+			b[len(b)-2] ^= byte(i >> 8)
+		}
+		return ref.V{B: b}
+	}
+	return v
 }
